@@ -24,6 +24,38 @@ What the classes are for (a defect of the pool could hinge on each of them):
   edge-w             pauses with nothing submitted, doubled pauses, a pause at the very end
   rounds             random: 1..4 segments, each a shuffled mix of whole rendezvous groups and instant / error /
                      long / panicking tasks, pauses between segments (pause and rendezvous in ONE script), up to ~8N tasks
+
+Second audit pass (audit/C07/AUDIT2.md): what a FEATURE added to the pool would hinge on - a relation between two things of the
+history (backlog depth and the place of the rendezvous in it; how long a job has been running and the next submit; how long the
+pool was idle, how often, and the size of the burst that follows; how many jobs failed on one pool).  `fixed2` are the fast ones,
+`slow2` the ones whose submitter sleeps (`z`): they run in a lane of their own, one harness process each, at the same time as
+everything else (props/c07.py).  Every script ends with a pause and a further rendezvous round, most with two: a pool that
+completes the history but comes out of it with fewer than N workers is seen there.
+  front-backlog      the rendezvous at the FRONT or in the MIDDLE of a backlog far beyond 4N (all workers busy, then N barrier tasks,
+                     then 70..2100 instant ones): batching / draining / spilling that starts above a backlog threshold
+  behind-backlog     the rendezvous at the END of such a backlog, without a pause before it
+  spread-backlog     the N barrier tasks d = 1..63 instant tasks apart inside a backlog: private batches, stolen halves of a queue
+  multi-round-backlog  2, 3, 5, 8 whole rendezvous rounds queued while all workers are busy: shares computed from backlog / N
+  queued-rounds      12 (thorough 40) rounds submitted in one go to an idle pool
+  ping-pong          submit, wait until done, submit ... 200 (thorough 2000) times: every submit meets a worker that finished a
+                     moment ago (spin-then-park, suppressed wake-ups, idle counters), then the rendezvous
+  panic-history      20..300 (thorough 1100) panicking jobs on one pool - C07's random scripts hold at most three -, also while N-1
+                     workers are held: panic counters, respawn budgets, crash-loop protection
+  staggered          the N barrier tasks do NOT arrive together: k of them, the submitter sleeps 0.3 .. 2.4 s (thorough 6 s), the rest;
+                     also one by one with a sleep after each; also with instant work for the one free worker in between.  The first
+                     jobs have been RUNNING for that long when the next submit comes: hung-job detection, replacement workers,
+                     growth on demand with settled counters, a single worker idle while N-1 are busy
+  long-idle          the whole pool idle for 1.2 / 1.5 / 2.1 / 3.3 s (thorough up to 7.2 s) - the first pass stopped at 0.6 s (0.9 s) -
+                     before the first job, after a burst, after panics, after a deep backlog; then TWO rendezvous rounds:
+                     keep-alive of idle workers, polling recv_timeout, workers retiring one after the other (every T, the next
+                     lock holder starts its own wait), respawn on the next submit
+  idle-cycles        burst, idle, burst, idle ... three to five times on one pool: a respawn that works once
+  large-N-sleep      long-idle / staggered / idle-cycles on pools of 9 .. 64 workers
+  long-wait          a backlog of LONG tasks (20 ms each; the first pass queued at most 4N of them = 80 ms): the tasks at its end,
+                     and the rendezvous behind them, have waited 0.8 .. 2.4 s (thorough 6 s) in the queue when a worker gets to
+                     them: time-outs on queued jobs, shedding of stale jobs, deadlines, priorities that age
+  huge-history       thorough only, judged by the oracle alone (replaying 70 000 tasks on the model takes minutes): 34 000 /
+                     66 000 / 70 000 tasks on one pool: 15 / 16 bit counters and sequence numbers
 """
 
 ALPHABET = 'ielbpwz'   # z: the submitter sleeps 300 ms (not a task)
@@ -148,12 +180,102 @@ def rounds(rng, tier):
     return ('rounds', n, ''.join(kinds), rng.chance(3, 4))
 
 def extras(rng, tier):
-    out = fixed(tier)
+    out = fixed(tier) + fixed2(tier)
     for _ in range(120 if tier == 'quick' else 6000):
         out.append(rounds(rng, tier))
     for cls, n, kinds, _ in out:
         assert legal(n, kinds), (cls, n, kinds)
     return out
+
+# ----------------------------------------------------------------------------- second audit pass
+def fixed2(tier):
+    """fast classes of the second pass; list of (class, N, kinds, perturb)"""
+    quick = tier == 'quick'
+    out = []
+    def add(cls, n, kinds, perturb): out.append((cls, n, kinds, perturb))
+    # --- the rendezvous and a deep backlog in ONE burst (no pause between them)
+    front = ([(2, 0, 70), (3, 5, 300), (8, 0, 140), (4, 40, 1100), (2, 3, 600), (5, 0, 70)] if quick else
+             [(n, a, m) for n in range(2, 9) for a, m in ((0, 70), (0, 300), (5, 140), (40, 1100), (100, 2100))])
+    for j, (n, a, m) in enumerate(front):
+        add('front-backlog', n, 'l' * n + 'i' * a + 'b' * n + 'i' * m + 'w' + 'b' * n, j % 3 == 2)
+    behind = ([(2, 70), (3, 300), (8, 140), (4, 1100)] if quick else [(n, m) for n in range(2, 9) for m in (70, 140, 300, 1100, 2100)])
+    for j, (n, m) in enumerate(behind):
+        add('behind-backlog', n, 'l' * n + 'i' * m + 'b' * n + 'w' + 'b' * n, j % 3 == 1)
+    spread = ([(2, 1), (3, 3), (4, 15), (8, 7), (2, 63), (6, 31)] if quick else [(n, d) for n in range(2, 9) for d in (1, 2, 3, 7, 15, 31, 63, 127)])
+    for j, (n, d) in enumerate(spread):
+        add('spread-backlog', n, 'l' * n + ('i' * d + 'b') * n + 'i' * d + 'w' + 'b' * n, j % 2 == 1)
+    for n in range(2, 9):
+        for k in ((2, 3, 5, 8) if not quick else (2, 3) if n in (2, 5) else (2, 5) if n == 3 else (2,)):
+            add('multi-round-backlog', n, 'l' * n + 'b' * (k * n) + 'w' + 'b' * n, (n + k) % 2 == 0)
+    for n in ((2, 3, 8) if quick else range(1, 9)):
+        add('queued-rounds', n, 'b' * (n * (12 if quick else 40)) + 'w' + 'b' * n, n % 2 == 1)
+    # --- ping-pong
+    for n, reps in ([(1, 200), (2, 200), (8, 120)] if quick else [(n, r) for n in range(1, 9) for r in (200, 2000)]):
+        add('ping-pong', n, 'iw' * reps + 'b' * n + 'w' + 'b' * n, False)
+        if not quick: add('ping-pong', n, 'iw' * 200 + 'b' * n + 'w' + 'b' * n, True)
+    for n, reps in ([(2, 60), (5, 30)] if quick else [(n, 100) for n in range(1, 9)]):
+        add('ping-pong', n, ('b' * n + 'w') * reps + 'b' * n, n == 5)
+    # --- panic-history
+    ph = ([(1, 'p' * 40 + 'w'), (2, 'p' * 70), (4, 'bbb' + 'p' * 20 + 'b' + 'w'), (3, 'p' * 300 + 'w'), (8, 'pi' * 40 + 'w')] if quick else
+          [(n, 'p' * m + sep) for n in range(1, 9) for m in (20, 70, 300, 1100) for sep in ('w', '')] +
+          [(n, 'b' * (n - 1) + 'p' * 40 + 'b' + 'w') for n in range(2, 9)])
+    for j, (n, h) in enumerate(ph):
+        add('panic-history', n, h + 'b' * n + 'w' + 'b' * n, j % 2 == 1)
+    return out
+
+def slow2(tier):
+    """classes of the second pass whose submitter sleeps (z = 300 ms); list of (class, N, kinds, perturb), longest first"""
+    quick = tier == 'quick'
+    out = []
+    def add(cls, n, kinds, perturb): out.append((cls, n, kinds, perturb))
+    def tail(n): return 'w' + 'b' * n + 'w' + 'b' * n
+    # --- long-idle: (N, history before the idle period, number of z)
+    if quick:
+        li = [(1, '', 4), (2, 'bbw', 7), (3, 'iiiw', 11), (8, 'b' * 8 + 'w', 4), (4, 'ppppw', 5), (2, 'll' + 'i' * 300 + 'w', 4), (5, '', 5)]
+    else:
+        li = [(n, pre, z) for n in (1, 2, 3, 5, 8) for pre in ('', 'i' * n + 'w', 'b' * n + 'w', 'p' * n + 'w') for z in (4, 7, 11, 17, 24)]
+        li += [(n, 'l' * n + 'i' * 300 + 'w', 7) for n in (1, 4, 8)]
+    for n, pre, z in li:
+        add('long-idle', n, pre + 'z' * z + 'b' * n + tail(n), False)
+    # --- idle-cycles
+    cyc = ([(2, 'bbwzz', 3), (1, 'iwzz', 4), (3, 'bbbwz', 5), (8, 'b' * 8 + 'wzz', 2)] if quick else
+           [(n, 'b' * n + 'w' + 'z' * z, c) for n in (1, 2, 3, 8) for z, c in ((1, 8), (2, 5), (4, 4), (7, 3))])
+    for n, unit, c in cyc:
+        add('idle-cycles', n, unit * c + 'b' * n + tail(n), False)
+    # --- staggered rendezvous
+    for n in range(2, 9):
+        ks = sorted({1, n - 1, n // 2}) if not quick else ([1, n - 1] if n > 2 else [1])
+        for k in ks:
+            add('staggered', n, 'b' * k + 'z' + 'b' * (n - k) + tail(n), (n + k) % 2 == 0)
+    st = ([(2, 'bzzzb'), (4, 'bzbzbzb'), (8, 'b' * 7 + 'zzzz' + 'b'), (3, 'b' + 'z' * 8 + 'bb'), (5, 'bbzzbzzbb'), (3, 'bbz' + 'iii' + 'z' + 'b'), (6, 'b' * 5 + 'z' + 'iel' * 4 + 'zz' + 'b')] if quick else
+          [(n, 'b' * (n - 1) + 'z' * z + 'b') for n in range(2, 9) for z in (3, 5, 8, 14, 20)] +
+          [(n, 'bz' * (n - 1) + 'b') for n in range(2, 9)] + [(n, 'bzz' * (n - 1) + 'b') for n in (2, 3, 4)] +
+          [(n, 'b' * (n - 1) + 'z' + 'iel' * n + 'zz' + 'b') for n in range(2, 9)] + [(n, 'b' + 'z' * 8 + 'b' * (n - 1)) for n in range(2, 9)])
+    for j, (n, kinds) in enumerate(st):
+        add('staggered', n, kinds + tail(n), j % 2 == 1)
+    # --- the same relations on pools of more than 8 workers (the server default is 200, the harness takes up to 64)
+    for n, kinds in ([(16, 'b' * 16 + 'w' + 'zzzz' + 'b' * 16), (64, 'b' * 63 + 'zz' + 'b'), (33, 'zzzz' + 'b' * 33), (12, 'b' * 5 + 'zz' + 'b' * 7)] if quick else
+                     [(n, k) for n in (9, 16, 24, 33, 64) for k in ('b' * n + 'w' + 'z' * 4 + 'b' * n, 'z' * 7 + 'b' * n, 'b' * (n - 1) + 'zzz' + 'b',
+                                                                    'b' + 'zz' + 'b' * (n - 1), ('b' * n + 'wzz') * 2 + 'b' * n)]):
+        add('large-N-sleep', n, kinds + tail(n), False)
+    # --- long-wait: a backlog of LONG tasks - the last ones wait 0.8 .. 2.4 s (thorough 6 s) in the queue while every worker is busy
+    lw = ([(1, 75, 'iie'), (2, 240, 'i'), (8, 320, 'ieie'), (3, 330, '')] if quick else
+          [(n, n * m, 'iie') for n in (1, 2, 3, 4, 8) for m in (30, 60, 120, 200, 300)])
+    for n, m, more in lw:
+        add('long-wait', n, 'l' * m + more + 'b' * n + tail(n), False)
+    out.sort(key=lambda s: -(s[2].count('z') * 0.3 + s[2].count('l') * 0.02 / s[1]))
+    return out
+
+def huge(tier):
+    """thorough only; judged by the oracle alone (props/c07.py)"""
+    if tier == 'quick': return []
+    return [('huge-history', 1, 'i' * 66000 + 'w' + 'b', False), ('huge-history', 3, 'i' * 70000 + 'w' + 'bbb', False),
+            ('huge-history', 2, 'ie' * 17000 + 'w' + 'bb', False)]
+
+def check_legal(scens):
+    for cls, n, kinds, _ in scens:
+        assert legal(n, kinds), (cls, n, kinds[:80])
+    return scens
 
 def interleave(base, extra):
     """`extra` spread evenly over `base` (keeps the slow classes out of one harness batch)"""
